@@ -294,7 +294,21 @@ CHECKS = {'C01': {'text': 'MODELLED: Lex.lean (Lexer.__next__ and every _read_*,
                  "(finding A10). literal_variable_equiv_partial keeps 'natural JSON kind' explicit: literal_variable_equiv_refuted_cross_kind / "
                  'rejects_cross_kind_refuted are the machine-checked witnesses of finding A8 (lenient built-in parsers, pinned by the suite). The history '
                  'stream has a DETERMINISTIC derivation probe (det_probe: fixed clone / extend / camel-case / visibility plans on a fixed schema with enums '
-                 'keyed by internal value, python-named input fields and defaults; fixed requests through every derived schema).',
+                 'keyed by internal value, python-named input fields and defaults; fixed requests through every derived schema). AUDIT REPAIR (co3): the '
+                 'hypothesis RegOK was FALSE for every registry holding an SDL custom scalar (CustomOK admitted the literal `null`, which the stand-in scalar '
+                 'answers with None, against RegOK.customNotNone): every soundness theorem was vacuous for such schemas (audit C07-F1). CustomOK now speaks '
+                 "only of the inputs value_from_ast really hands a scalar's parser (a non-null JSON value; a literal other than `null` / `$x`); all soundness "
+                 'theorems are re-proved with the STRONGER Conforms and the WEAKER hypothesis. customNotNone_default / customNotNone_ofTypes / '
+                 'customNotNone_regOfSchema PROVE the hypothesis for the stand-in scalar (whatever the extracted flags), regOK_ofTypes_iff / '
+                 'regOK_regOfSchema_iff reduce RegOK of the registries the library builds to the four conditions on the declared types, '
+                 'regOK_satisfiable_with_default_scalar is the non-vacuity witness (scalar Any, enum, input object with the scalar at nullable / non-null / '
+                 'list-item positions and a declared default), customNotNone_still_excludes shows the condition still excludes a user scalar answering None. '
+                 'VarsFit / VarsAllowed got the constructor scalarPos (a list / object literal at a custom-scalar position: audit C07-F2, the hypotheses were '
+                 'underivable there). One theorem per headline (variable_sound, _total, literal_sound, _total, variables_sound, arguments_sound, '
+                 'validated_arguments_sound, every_validated_call_conforms, every_validated_call_conforms_tree: *_applies_with_default_scalar, '
+                 'Props/C07_regok_apps.lean) discharges ALL its hypotheses on that registry and concludes about a value the stand-in produced; the named probe '
+                 'regok-witness (corr/C07_regok.py) runs the same inputs through build_schema / graphql_blocking / coerce_value / value_from_ast / '
+                 'coerce_argument_values and probes customNotNone on the live default_scalar.',
          'note': 'Trusted: Lean kernel; translator; CustomNeverRaises / CustomAgree are hypotheses about user-supplied scalar parsers; repr(float) as wire '
                  'spelling. Nested lists of lists in the trace model and non-ASCII digits in lexemes are exercised, not modelled. Known findings A9 (omitted '
                  'variable inside an object / list literal; pinned), A10 (the stand-in scalar keeps number literals as text: inline differs from variable; '
@@ -302,7 +316,9 @@ CHECKS = {'C01': {'text': 'MODELLED: Lex.lean (Lexer.__next__ and every _read_*,
                  "themselves (C14's model), resolver memoisation per (field definition, node). Declared defaults are handed over as declared: "
                  'RegOK.defaultsConform is a premise (established by SDL-built schemas); for code-first schemas only DeclaredOK holds and the statement is '
                  "refuted (defaults_filled_statement_refuted, known finding A11). Named probe default-shapes: A11, T14 (C14's finding at the resolver), A12 "
-                 '(scalar implemented by a visitor: proposed fix C07-A12). A refused derivation of the deterministic probe is a reported failure.',
+                 '(scalar implemented by a visitor: proposed fix C07-A12). A refused derivation of the deterministic probe is a reported failure. Still open '
+                 "from the audit: F3 (VarsAllowed / ArgsOK / RegTypesOK are not derived from the validator and schema-validation models), F4 (the 'no resolver "
+                 "call' theorems unfold C07's own trace executor), F5 (inline = variable at function level only), F6, F7, F8.",
          'technique': 'Lean 4 proof (coercion soundness, per-type route equivalence, never-raises, before-resolver trace over response trees) + '
                       'source-translated scalar branches + resolver-kwargs correspondence incl. derived schemas'},
  'C08': {'text': 'Lean model of chain / unwrap_future / gather_futures (counter state machine) / asyncio gather_values and of the generic Executor over a '
@@ -617,7 +633,17 @@ CHECKS = {'C01': {'text': 'MODELLED: Lex.lean (Lexer.__next__ and every _read_*,
                  'an interface = exactly the objects that declare it, and null for every other kind), deprecation_reason_exact, directive_keys_june2018, '
                  'default_string_reads_back_iff (a plain String / ID default reads back IFF it has no control character other than TAB / LF / CR: the exact '
                  "boundary of finding I1's residue). Deterministic class eq-colliding: defaults and enum internal values 1 / True / 1.0 / 0 / False / 0.0 on "
-                 'one JSON-like scalar and one enum, two schemas sharing the type objects, introspected in one process with a type-strict round-trip oracle.',
+                 'one JSON-like scalar and one enum, two schemas sharing the type objects, introspected in one process with a type-strict round-trip oracle. '
+                 'AUDIT REPAIR (co3, audits/2.md finding 3): default_parses_partial reads the text back with the PRIVATE reader readLit, which is laxer than '
+                 'the grammar (readLit_laxer_than_grammar: `1.e+-`, `{a:1.}` are read by it and refused by the lexer model and by the real parse_value). '
+                 "Props/C15_grammar.lean restates the clause against the VERIFIED lexer + parser model (Parse.parseValueText = C01's lexAll then C02's "
+                 "parseValue) and at the VALUE level through C07's valueFromAst on Exec.regOfSchema: DefaultParsesGrammarStatement / "
+                 'FormatDefaultParsesGrammarStatement (full, OPEN), default_parses_grammar_instances_partial (27 literals: every kind, escapes, nesting), '
+                 'format_default_parses_grammar_instances_partial, default_value_roundtrip_instances_partial (enum member with internal value 1 reported as B '
+                 'and read back as 1, [B, A], input object, string with LF, ID, null), DefaultValueRoundTripStatement REFUTED by '
+                 "default_value_roundtrip_refuted_custom_scalar (a NUMBER default at the stand-in scalar is reported as `5` and reads back as the text '5': "
+                 "known finding I22, C07's A10 seen from introspection; reproduced by the named probe grammar-witnesses, which also checks that the reported "
+                 'texts of the Lean instances are the real ones). The general induction over printLit against the fuelled lexer is NOT proved.',
          'note': 'Trusted: Lean kernel; translator; generators; `_resolve_type_kind` and the meta-field table of field_definition are extracted statically or, '
                  'when the shape is not recognised, by running the real code on their finite domains (route recorded in the evidence). asyncio/thread-pool '
                  'runs only exercised by the Python oracle. Known finding I1 (residual: control characters in plain string defaults). Repaired: I1 (rest), I2, '
